@@ -141,7 +141,7 @@ def reuse_stream(ctx):
     rng = ctx.rng
     X = pbx.stair(*pbx.int_box200(rng, "pos"))
     x = ([float(v) for v in X.left], [float(v) for v in X.right])
-    for it in range(ctx.scale(24, 200)):
+    for it in range(ctx.scale(60, 300)):
         dep = rng.choice(["p", "o"])
         op = rng.choice(["div", "div", "mul"])
         y = pbx.int_box200(rng, rng.choice(["pos", "neg"]))
